@@ -9,7 +9,7 @@ CLAIMS = ['host', 'priv']
 PRIV_SHARDS = {'A/10', 'A/12', 'A/14', 'A/16', 'A/32', 'A/36', 'A/1b', 'A/25', 'A/84', 'A/86', 'A/8d', 'A/8f', 'A/95', 'A/9d',
                'A/99', 'T16/b6', 'T32/138', 'T32/139', 'T32/13a', 'T32/13b', 'T32/13d', 'T32/13e', 'T32/13f',
                'T32/080', 'T32/081', 'T32/083', 'T32/098', 'T32/099', 'T32/09b'}
-SCR_SYM = {'scr': 0x31}  # SCR.NS, FW, AW symbolic
+SCR_SYM = {'scr': 0x31, 'nsacr': 0x3FFF, 'cpacr': 0x0FFFFFFF}  # SCR.NS, FW, AW; coprocessor access controls
 
 
 def units(tier, seed=0):
